@@ -359,8 +359,60 @@ fn queries() {
     check_unchanged_s("query_changes_no_state", app.storage(), &snap);
 }
 
+/// bank messages with a recording bank in the builder slot: every BankMsg, whatever its coin list,
+/// is handed to the configured bank (found missing by seed C17: an empty coin list short-cut)
+fn bank_routing() {
+    LOG.with(|l| l.borrow_mut().clear());
+    FAIL.with(|f| f.borrow_mut().clear());
+    let user = addr("user");
+    let other = addr("other");
+    let mut app = AppBuilder::new_custom()
+        .with_bank(Rec::<BankMsg, BankQuery, BankSudo>::new("bank"))
+        .with_custom(Rec::<MyMsg, MyQuery, Empty>::new("custom"))
+        .build(|_, _, _| {});
+    let code_c = app.store_code(Box::new(ContractWrapper::new(exec_custom, inst_custom, query_custom)));
+    let code_e = app.store_code(Box::new(ContractWrapper::new_with_empty(exec_empty, inst_empty, query_empty)));
+    let kc = app.instantiate_contract(code_c, user.clone(), &Empty {}, &[], "kc", None).unwrap();
+    let ke = app.instantiate_contract(code_e, user.clone(), &Empty {}, &[], "ke", None).unwrap();
+    let amt = sym_u128("amt", 0, BAL);
+    let lists: Vec<Vec<Coin>> = vec![vec![], vec![coin(amt, "x")], vec![coin(u(0), "x")], vec![coin(amt, "x"), coin(u(7), "y")]];
+    let coins = lists[choose(lists.len())].clone();
+    let bank: BankMsg = if choose(2) == 0 { BankMsg::Send { to_address: other.to_string(), amount: coins.clone() } } else { BankMsg::Burn { amount: coins.clone() } };
+    let origin = choose(3);
+    let fails = choose(2) == 1;
+    if fails {
+        FAIL.with(|f| f.borrow_mut().insert("bank".into()));
+    }
+    let payload = format!("{:?}", bank);
+    note(format!("bank routing origin={} fails={} msg={}", origin, fails, payload));
+    LOG.with(|l| l.borrow_mut().clear());
+    let r = catch(|| match origin {
+        0 => app.execute(user.clone(), CosmosMsg::<MyMsg>::Bank(bank.clone())),
+        1 => app.execute_contract(user.clone(), kc.clone(), &Emit::<MyMsg> { msgs: vec![CosmosMsg::Bank(bank.clone())] }, &[]),
+        _ => app.execute_contract(user.clone(), ke.clone(), &Emit::<Empty> { msgs: vec![CosmosMsg::Bank(bank.clone())] }, &[]),
+    });
+    let r = match r {
+        Ok(r) => r,
+        Err(p) => {
+            failure("no_panic", "panic", p);
+            return;
+        }
+    };
+    let entries: Vec<Entry> = LOG.with(|l| l.borrow().clone());
+    let want_sender = [user.clone(), kc.clone(), ke.clone()][origin].clone();
+    check_native("exactly_one_module_invocation", entries.len() == 1, || format!("{} -> {:?}", payload, entries));
+    if let Some(e) = entries.first() {
+        witness("routed");
+        check_native("reaches_the_module_configured_for_its_kind", e.module == "bank" && e.kind == "exec", || format!("{:?}", e));
+        check_native("sender_intact", e.sender.as_ref() == Some(&want_sender), || format!("{:?}", e.sender));
+        check_native("payload_intact", e.payload == payload, || format!("{} vs {}", e.payload, payload));
+    }
+    check_native("module_result_is_what_the_caller_sees", r.is_ok() != fails, || format!("{:?}", r.as_ref().err()));
+}
+
 pub fn scenarios(_tier: &str) -> Vec<Scenario> {
     vec![
+        Scenario::new("bank_messages_reach_the_configured_bank", &["routed"], bank_routing),
         Scenario::new("messages_kinds_origins_outcomes", &["routed", "module_ok", "module_failed"], messages),
         Scenario::new("queries_kinds_origins_outcomes", &["routed"], queries),
     ]
